@@ -127,6 +127,89 @@ def session_tail(ctx, sfw, rng, base, dbs, variants, origins, thorough):
     return evs
 
 
+LOOSE_SAMPLE = '''package main
+
+import (
+	"net"
+	"os"
+	"time"
+)
+
+func beacon(addr string, n int) int {
+	sent := 0
+	for i := 0; i < n; i++ {
+		c, err := net.DialTimeout("tcp", addr, time.Second)
+		if err != nil {
+			time.Sleep(time.Second)
+			continue
+		}
+		c.Write([]byte(os.Getenv("HOME")))
+		c.Close()
+		sent++
+	}
+	return sent
+}
+
+func main() {
+	if len(os.Args) > 1 && beacon(os.Args[1], 3) == 0 {
+		os.Exit(2)
+	}
+}
+'''
+LOOSE_OTHER = '''package main
+
+import "fmt"
+
+func main() {
+	for i := 0; i < 3; i++ {
+		fmt.Println("tick", i)
+	}
+}
+
+func init() { fmt.Print("") }
+'''
+
+
+def loose_programs(ctx, sfw):
+    """Stand-alone programs OUTSIDE any module (every one of them loads as the ad-hoc package
+    "command-line-arguments", so `main`, `init` and helpers of different programs share qualified names): the
+    sample is indexed, then a tree that holds an unrelated program and a renamed, reformatted copy of the sample."""
+    base = os.path.join(ctx.scratch, "loose")
+    for rel, src in (("lab/sample/main.go", LOOSE_SAMPLE), ("hunt/a_util/main.go", LOOSE_OTHER),
+                     ("hunt/b_tool/main.go", "// copy\n" + LOOSE_SAMPLE.replace("sent", "okCount").replace("addr", "target").replace("\tfor i := 0; i < n; i++ {", "\t// reformatted\n\tfor k := 0; k < n; k++ {")),
+                     ("hunt/c_more/main.go", LOOSE_OTHER.replace("tick", "tock"))):
+        os.makedirs(os.path.dirname(os.path.join(base, rel)), exist_ok=True)
+        with open(os.path.join(base, rel), "w") as fh:
+            fh.write(src)
+    evs = []
+    for be, db in (("pebbledb", os.path.join(base, "l.db")), ("json", os.path.join(base, "l.json"))):
+        rc, out, err = run(sfw, ["index", "--name", "lo", "--db", db, os.path.join(base, "lab", "sample", "main.go")], base)
+        if rc != 0:
+            raise vlib.Inconclusive("sfw index of a stand-alone program failed: " + (out + err)[-500:])
+        doc = json.loads(out[out.index("{"):])
+        sigs = [{"id": s_["id"], "fn": s_["name"][len("lo_"):], "hash": s_["topology_hash"]} for s_ in doc["indexed"]]
+        names = {s_["fn"] for s_ in sigs}
+        if not {"main", "beacon"} <= names:
+            raise vlib.Inconclusive("stand-alone sample: indexed functions are %s" % sorted(names))
+        evs.append({"ev": "index", "db": "loose_" + be, "backend": be, "sigs": sigs})
+        fns = [{"name": "main", "origin": "main"}, {"name": "beacon", "origin": "beacon"}]     # (names of OTHER functions a function calls are part of what it does)
+        for mode, th in (("full", "0.75"), ("full", "1.0"), ("exact", "0.75")):
+            args = ["scan", "--no-sandbox", "--threshold", th, "--db", db] + (["--exact"] if mode == "exact" else []) + [os.path.join(base, "hunt")]
+            rc, out, err = run(sfw, args, base)
+            if rc != 0:
+                raise vlib.Inconclusive("sfw scan of the stand-alone programs failed: " + (out + err)[-500:])
+            doc = json.loads(out[out.index("{"):])
+            alerts = [{"sig": a["signature_id"], "fn": a["matched_function"], "one": a["confidence"] == 1.0, "conf": repr(a["confidence"])}
+                      for a in (doc.get("alerts") or [])]
+            by = {}
+            for a in alerts:
+                by.setdefault(a["fn"], []).append(a)
+            evs.append({"ev": "scan", "db": "loose_" + be, "backend": be, "mode": mode, "theta": th, "variant": "loose", "dir": base,
+                        "fns": fns, "alerts": alerts, "by": by, "scanned": doc.get("total_functions_scanned", 0)})
+    ctx.notes["loose_program_scans"] = len([e for e in evs if e["ev"] == "scan"])
+    return evs
+
+
 def check(ctx):
     thorough = ctx.tier == "thorough"
     ctx.model_check(MATCH, "MC_Match", "MC_Match_c05.cfg" if thorough else "MC_Match_c05_quick.cfg", timeout=1500)
@@ -252,6 +335,7 @@ def check(ctx):
         evs.append({"ev": "scan", "db": be, "backend": be, "mode": mode, "theta": th, "variant": name, "dir": d,
                     "fns": fns, "alerts": alerts, "by": by, "scanned": doc.get("total_functions_scanned", 0)})
     evs += session_tail(ctx, sfw, rng, base, dbs, variants, origins, thorough)
+    evs += loose_programs(ctx, sfw)
     ctx.notes["scans"] = len([e for e in evs if e["ev"] == "scan"])
     ctx.notes["variants"] = len(variants)
     trace = os.path.join(ctx.scratch, "trace.ndjson")
@@ -307,7 +391,12 @@ def check(ctx):
             rfiles = {"event.json": {k: e[k] for k in e if k not in ("fns", "by")}, "function.json": f, "signature.json": s,
                       "session.json": [{k: x[k] for k in x if k not in ("fns", "by", "alerts", "sigs")} for x in evs],
                       "indexed_a.go": files["a.go"], "indexed_b.go": files["b.go"], "indexed_c.go": files["c.go"]}
-            if e["ev"] == "scan":
+            if e["ev"] == "scan" and e["variant"] == "loose":
+                for root_, _, fns_ in os.walk(e["dir"]):
+                    for fn_ in fns_:
+                        if fn_.endswith(".go"):
+                            rfiles["loose_" + os.path.relpath(os.path.join(root_, fn_), e["dir"]).replace("/", "_")] = open(os.path.join(root_, fn_)).read()
+            elif e["ev"] == "scan":
                 for fn_ in sorted(os.listdir(os.path.join(e["dir"], "pk"))):
                     if fn_.endswith(".go"):
                         rfiles["scanned_" + fn_] = open(os.path.join(e["dir"], "pk", fn_)).read()
